@@ -111,6 +111,16 @@ class Gen:
                                                                 "note x", "nocl", "NOCL: generated"])))
                 self.o.nl()
                 self.features.add("comment-line")
+            elif k < 0.86:
+                # characters that are line boundaries for str.splitlines but not line breaks of the file: a page-break line
+                # (form feed), a vertical tab, a comment holding U+2028 / U+0085 / a file separator (seeded change C01-9)
+                if self.r.random() < 0.4:
+                    self.o.ws(self.r.choice(["\f", "\x0b", "\f\f"]))
+                else:
+                    self.o.ws(indent)
+                    self.o.comment(self.line_comment("see the notes" + self.r.choice(["\u2028", "\x85", "\x1c", "\u2029", "\x0c"]) + "second paragraph"))
+                self.o.nl()
+                self.features.add("odd-line-boundary-char")
             elif self.lang != "Python":
                 self.o.ws(indent)
                 self.o.comment("/* block\n" + indent + "   comment { ( */")
@@ -627,9 +637,14 @@ class Gen:
             self.o.ws(indent + "    ")
             self.o.code("2", owners)
             self.features.add("line-continuation")
-        elif k < 0.9 and self.opts["strings"]:
+        elif k < 0.88 and self.opts["strings"]:
             self.o.code('doc = """one-line docstring with ( { and def f():"""', owners)
             self.features.add("triple-quoted-string")
+        elif k < 0.93 and self.opts["strings"]:
+            # a statement-level string over several lines (one token for the lexer): it begins on ONE line, and when it is
+            # the last statement the function ends just past its closing quotes (seeded change C01-10)
+            self.o.code('"""summary ( {\n' + indent + 'more text, def f():\n' + indent + self.r.choice(["", "  ", "the end "]) + '"""', owners)
+            self.features.add("multiline-docstring")
         else:
             self.o.code("return x", owners)
         self.trailing()
